@@ -30,14 +30,13 @@ def closeSec (s : SecState) : List Sec :=
 def secStep (s : SecState) (t : Tok) : SecState :=
   match t.kind with
   | .lang l back hard brk =>
-    if l == stackTop s.stack then s
-    else
-      let secs := closeSec s
-      let stack :=
-        if back then (if s.stack.length > 1 then s.stack.tail else s.stack)
-        else if hard then l :: s.stack.tail
-        else l :: s.stack
-      { stack := stack, swBack := back, swBrk := brk, cur := [], secs := secs }
+    -- the stack is always updated; a new section starts only if the language in force changes
+    let stack :=
+      if back then (if s.stack.length > 1 then s.stack.tail else s.stack)
+      else if hard then l :: s.stack.tail
+      else l :: s.stack
+    if stackTop stack == stackTop s.stack then { s with stack := stack }
+    else { stack := stack, swBack := back, swBrk := brk, cur := [], secs := closeSec s }
   | _ => { s with cur := s.cur ++ [t] }
 
 def sections (toks : List Tok) (mainLang : Str) : List Sec :=
